@@ -73,6 +73,14 @@ CLAIMED = {
                  "network output; epsilon-greedy orientation (roll < eps -> uniform random, else greedy); DQN-family selection test, arms (online net, current observation) and the 1.0->0.1 linear schedule.",
         "note": "Trusted: tfp closed forms for given parameters, U[0,1) draws, argmax. Not decided: numerics of tfp, single-unbatched-observation shape behaviour inside tfp.",
     },
+    "C10": {
+        "technique": "static analysis: normal-form identity of the samplers, tanh heads and CEM proposal/update against documented formulas; partial/jit/cached_partial/factory resolution of bound arguments; reaching-definition provenance of every env.step argument in the continuous-control loops",
+        "level": "Decides for all observations, keys and box bounds (formula identity + dataflow): sample_actions / sample_target_actions return clip(pi(o)+eps, low, high) with eps = noise*0.5*(high-low)*N(key) "
+                 "(target: eps clipped to +-scale*noise_clip before the action clip); factories bind (low, high, scale, ...) of the same space in order; every env.step argument of DDPG/TD3/TD3-LAP/TD7/MR.Q "
+                 "derives from that sampler on env.action_space or from action_space.sample(); tanh heads map through tanh(y)*(high-low)/2+(high+low)/2; CEM proposal std bounded by half the distance to the "
+                 "bounds with +-2 truncation, convex mean/var update, PETS bounds / mid-point / plan[0] chain.",
+        "note": "Trusted: clip/tanh/truncated_normal ranges, convexity argument for the CEM mean. Not decided: rounding at the bound itself; SAC's unclipped Gaussian sample is outside the property's list.",
+    },
 }
 
 NOT_APPLICABLE = {}
